@@ -83,6 +83,16 @@ func (c *Controller) VerifTryLock() bool {
 // iteration order.  Any order is a legal outcome; between two events the harness permutes the lists the controller
 // built (membership untouched, index maps kept consistent) into address order so that a replayed path behaves the
 // same way every time.  The round-robin cursor is left as it is.
+// VerifCanonicalOrderIfFree canonicalises under the controller lock; false when the lock is taken.
+func (c *Controller) VerifCanonicalOrderIfFree() bool {
+	if !c.TryLock() {
+		return false
+	}
+	defer c.Unlock()
+	c.VerifCanonicalOrder()
+	return true
+}
+
 func (c *Controller) VerifCanonicalOrder() {
 	r := c.backend
 	if r == nil {
